@@ -39,7 +39,12 @@ def run(chk: Check) -> None:
     from .. import seeds
 
     vectors = [v for v in progspace.enumerate_vectors(chk, with_args=True) if v["mult"] == 1 and v["imp"] == "asis" and v["layout"] != "bom" and v["args"] not in ("same-line-pair", "multiline", "list-elements")]
-    scenarios = progspace.build_batches(chk, codemods=set(HARDENING), vectors=vectors, seeds_per_codemod=chk.pick(4, 14), vectors_per_seed=chk.pick(9, 40))
+    scenarios = progspace.build_batches(chk, codemods=set(HARDENING), vectors=vectors, seeds_per_codemod=chk.pick(4, 14), vectors_per_seed=chk.pick(9, 40), with_extra=True)
+    extra_keys = {s_.key for s_ in seeds.extra()}
+    for scn in scenarios:
+        # hand-written probes are judged only when they state the documented edit they expect
+        for rel in [r for r, m in scn["_metas"].items() if m["seed"] in extra_keys and m.get("seed_expected") == m.get("seed_input")]:
+            del scn["_metas"][rel], scn["files"][rel]
     by_key = {s.key: s for s in seeds.load()}
     for scn in scenarios:
         if scn["_codemod"] in NO_EXTRA_ARGS:
@@ -48,7 +53,7 @@ def run(chk: Check) -> None:
         expect = {}
         for rel, meta in scn["_metas"].items():
             # the seed's own texts (two tests of different classes may share a name, i.e. a key)
-            d = deltas.delta(meta.get("seed_input", by_key[meta["seed"]].input), meta.get("seed_expected", by_key[meta["seed"]].expected))
+            d = deltas.delta(meta["seed_input"], meta["seed_expected"])
             if d is None:
                 continue
             expect[rel] = {"minus": dict(d[0]), "plus": dict(d[1])}
